@@ -8,6 +8,7 @@ import (
 	"encoding/json"
 	"net"
 	"sync"
+	"time"
 
 	"github.com/honeytrap/honeytrap/event"
 	"github.com/honeytrap/honeytrap/pushers"
@@ -85,6 +86,7 @@ type stub struct {
 	Name   string `toml:"name"`
 	Prefix string `toml:"prefix"` // hex
 	Echo   bool   `toml:"echo"`
+	SlowMs int    `toml:"slow_ms"` // read 4 bytes, pause, then read on (keeps peeked bytes pending for a while)
 	run    int
 	ch     pushers.Channel
 }
@@ -123,8 +125,17 @@ func (s *stub) Handle(ctx context.Context, conn net.Conn) error {
 	Stubs.calls = append(Stubs.calls, call)
 	Stubs.mu.Unlock()
 	buf := make([]byte, 4096)
+	first := true
 	for {
-		n, err := conn.Read(buf)
+		rb := buf
+		if s.SlowMs > 0 && first {
+			rb = buf[:4]
+		}
+		n, err := conn.Read(rb)
+		if s.SlowMs > 0 && first {
+			first = false
+			time.Sleep(time.Duration(s.SlowMs) * time.Millisecond)
+		}
 		Stubs.mu.Lock()
 		call.Data = append(call.Data, buf[:n]...)
 		if err != nil {
